@@ -165,6 +165,8 @@ class C07Runner:
             env = {}
             if self.sc.get("handler"):
                 env["CICADA_ENABLE_SIG_HANDLER"] = "1"
+            if self.sc.get("log_file"):
+                env["CICADA_LOG_FILE"] = os.path.join(sim.home, "cicada.log")
             self.shell = PtyShell(sim, env_extra=env)
             ev = sim.shell_event()
             if ev[0] != "msg" or not ev[1].startswith("hello"):
